@@ -3,7 +3,9 @@ C17-type irredundancy of differ scripts: in the replay of a script no node is re
 twice and no node's tail is set twice.  The targets of the selected actions of one visit are at most the partner of
 the visited right node, and partners of different right nodes are different.
 -/
-import XmlDiffModel.Proofs.DifferFmt
+import XmlDiffModel.Proofs.AlongG
+import XmlDiffModel.Proofs.Counts
+import XmlDiffModel.Proofs.Counts2
 
 namespace XmlDiffModel
 namespace Once
@@ -105,6 +107,229 @@ theorem targets_all (sel : Sel) (qn : QName) (Q : Nat → Prop) (acts : List Act
       · apply ih p' ?_ i hi
         intro pre x post hsplit q hq
         exact h (a :: pre) x post (by rw [hsplit]; rfl) q (runShipped_cons qn p p' q a pre hx hq)
+
+/-! ### one visit -/
+
+/-- a selected action hits the node `l` -/
+def HitP (sel : Sel) (qn : QName) (l : Nat) (p : PState) (a : Action) : Prop :=
+  ∀ path nd, sel a = some path → uniqueHit qn p.tree path = .ok nd → nd.id = l
+
+/-- selectors that pick the node path of rename / text / tail actions only -/
+structure GoodSel (sel : Sel) : Prop where
+  ren : ∀ path tag p', sel (.renameNode path tag) = some p' → p' = path
+  txt : ∀ path v p', sel (.updateTextIn path v) = some p' → p' = path
+  tail : ∀ path v p', sel (.updateTextAfter path v) = some p' → p' = path
+  attr : ∀ path a, IsAttrOn path a → sel a = none
+  ins : ∀ tp tag pos, sel (.insertNode tp tag pos) = none
+  insc : ∀ tp pos v, sel (.insertComment tp pos v) = none
+  move : ∀ p1 p2 pos, sel (.moveNode p1 p2 pos) = none
+  del : ∀ n, sel (.deleteNode n) = none
+
+theorem goodSel_ren : GoodSel renSel := by
+  refine ⟨?_, ?_, ?_, ?_, ?_, ?_, ?_, ?_⟩ <;> intros <;> simp_all [renSel]
+  · rename_i path a h
+    cases a <;> simp_all [IsAttrOn]
+
+theorem goodSel_text : GoodSel textSel := by
+  refine ⟨?_, ?_, ?_, ?_, ?_, ?_, ?_, ?_⟩ <;> intros <;> simp_all [textSel]
+  · rename_i path a h
+    cases a <;> simp_all [IsAttrOn]
+
+theorem goodSel_tail : GoodSel tailSel := by
+  refine ⟨?_, ?_, ?_, ?_, ?_, ?_, ?_, ?_⟩ <;> intros <;> simp_all [tailSel]
+  · rename_i path a h
+    cases a <;> simp_all [IsAttrOn]
+
+theorem hit_id (qn : QName) (t : Tree) (l : Nat) (path : Path) (nd : Tree) (hp : pathStr qn t l = .ok path)
+    (hh : uniqueHit qn t path = .ok nd) : nd.id = l :=
+  find_id l t nd (hit_of_pathStr qn t l path hp nd hh)
+
+theorem obl_hit (sel : Sel) (g : GoodSel sel) (qn : QName) : Along.Obl qn (HitP sel qn) := by
+  refine ⟨?_, ?_, ?_, ?_, ?_, ?_, ?_⟩
+  · intro l t nx path tag hp p' nd hs hh
+    rw [g.ren path tag p' hs] at hh
+    exact hit_id qn t l path nd hp hh
+  · intro l t nx path v hp p' nd hs hh
+    rw [g.txt path v p' hs] at hh
+    exact hit_id qn t l path nd hp hh
+  · intro l t nx path v hp p' nd hs hh
+    rw [g.tail path v p' hs] at hh
+    exact hit_id qn t l path nd hp hh
+  · intro l p path a ha p' nd hs; rw [g.attr path a ha] at hs; cases hs
+  · intro l p tp tag pos p' nd hs; rw [g.ins] at hs; cases hs
+  · intro l p tp pos v p' nd hs; rw [g.insc] at hs; cases hs
+  · intro l p p1 p2 pos p' nd hs; rw [g.move] at hs; cases hs
+
+theorem countP_append_rev (f : Action → Bool) (acts out : List Action) :
+    (acts.reverse ++ out).countP f = acts.countP f + out.countP f := by
+  simp [List.countP_append]
+
+/-- the targets of one visit: nothing, or the partner of the visited node -/
+theorem visit_targets (sel : Sel) (g : GoodSel sel) (cnt : Action → Bool)
+    (hcnt : ∀ a, (sel a).isSome = cnt a)
+    (hone : ∀ (qn : QName) (cfg : Cfg) (R x : Tree) (s s' : DState), (keys x.payload.attrs).Nodup →
+      visit qn cfg R x s = .ok s' → s'.out.countP cnt ≤ s.out.countP cnt + 1)
+    (qn : QName) (cfg : Cfg) (R x : Tree) (s s' : DState) (hs : SOK s)
+    (hx : (keys x.payload.attrs).Nodup) (h : visit qn cfg R x s = .ok s') :
+    ∃ l acts, Steps qn cfg.ignored s s' acts ∧ r2lGet s'.ms x.id = some l ∧
+      (s'.ms = s.ms ∨ (r2lGet s.ms x.id = none ∧ s'.ms = (l, x.id) :: s.ms ∧ l = s.next)) ∧
+      (targets sel qn ⟨s.left, s.next⟩ acts = [] ∨ targets sel qn ⟨s.left, s.next⟩ acts = [l]) := by
+  obtain ⟨l, ⟨acts, st, hal⟩, hl, hms⟩ :=
+    Along.visit_g qn cfg.ignored (HitP sel qn) (obl_hit sel g qn) cfg rfl R x s s' hs hx h
+  refine ⟨l, acts, st, hl, hms, ?_⟩
+  have hall := targets_all sel qn (fun i => i = l) acts ⟨s.left, s.next⟩ hal
+  have hlen : (targets sel qn ⟨s.left, s.next⟩ acts).length ≤ 1 := by
+    have h1 := targets_length sel qn acts ⟨s.left, s.next⟩
+    have h2 := hone qn cfg R x s s' hx h
+    rw [st.out, countP_append_rev] at h2
+    have h3 : acts.countP (fun a => (sel a).isSome) = acts.countP cnt := by
+      congr 1; funext a; exact hcnt a
+    omega
+  cases ht : targets sel qn ⟨s.left, s.next⟩ acts with
+  | nil => exact Or.inl rfl
+  | cons a rest =>
+    rw [ht] at hlen hall
+    cases rest with
+    | nil => right; rw [hall a (by simp)]
+    | cons b r => simp at hlen
+
+/-! ### all visits -/
+
+theorem r2lGet_cons (a b : Nat) (ms : Matches) (y : Nat) :
+    r2lGet ((a, b) :: ms) y = if b = y then some a else r2lGet ms y := by
+  simp [r2lGet]
+
+/-- in a one-to-one matching a left node has one partner -/
+theorem partner_unique (ms : Matches) (hl : (lefts ms).Nodup) (l a b : Nat) (ha : (l, a) ∈ ms) (hb : (l, b) ∈ ms) :
+    a = b := by
+  induction ms with
+  | nil => cases ha
+  | cons p rest ih =>
+    simp only [lefts, List.map_cons, List.nodup_cons] at hl
+    simp only [List.mem_cons] at ha hb
+    rcases ha with ha | ha <;> rcases hb with hb | hb
+    · rw [← ha] at hb; injection hb with _ e; exact e.symm
+    · exfalso; apply hl.1; rw [← ha]; exact List.mem_map.2 ⟨(l, b), hb, rfl⟩
+    · exfalso; apply hl.1; rw [← hb]; exact List.mem_map.2 ⟨(l, a), ha, rfl⟩
+    · exact ih hl.2 ha hb
+
+theorem visitAll_targets (sel : Sel) (g : GoodSel sel) (cnt : Action → Bool)
+    (hcnt : ∀ a, (sel a).isSome = cnt a)
+    (hone : ∀ (qn : QName) (cfg : Cfg) (R x : Tree) (s s' : DState), (keys x.payload.attrs).Nodup →
+      visit qn cfg R x s = .ok s' → s'.out.countP cnt ≤ s.out.countP cnt + 1)
+    (f0 : Nat) (qn : QName) (cfg : Cfg) (R : Tree) (hRn : (ids R).Nodup) (xs : List Tree)
+    (hxs : ∀ x ∈ xs, find x.id R = some x ∧ (keys x.payload.attrs).Nodup) (hnd : (xs.map Tree.id).Nodup)
+    (s s' : DState) (c : C17.CI f0 s) (h : visitAll qn cfg R xs s = .ok s') :
+    ∃ acts, Steps qn cfg.ignored s s' acts ∧ C17.CI f0 s' ∧
+      (∀ y l, r2lGet s.ms y = some l → r2lGet s'.ms y = some l) ∧
+      (targets sel qn ⟨s.left, s.next⟩ acts).Nodup ∧
+      ∀ i ∈ targets sel qn ⟨s.left, s.next⟩ acts, ∃ x ∈ xs, r2lGet s'.ms x.id = some i := by
+  induction xs generalizing s with
+  | nil =>
+    simp only [visitAll, Except.ok.injEq] at h
+    subst h
+    exact ⟨[], Steps.refl qn _ s c.sok, c, fun _ _ h => h, by simp [targets], by simp [targets]⟩
+  | cons x rest ih =>
+    simp only [visitAll, bind, Except.bind] at h
+    split at h
+    · cases h
+    · next s1 hv =>
+      obtain ⟨hxf, hxa⟩ := hxs x (by simp)
+      have c1 := (C17.visit_res f0 qn cfg R hRn x hxf hxa s s1 c hv).ci
+      obtain ⟨l, a1, st1, hl1, hms1, ht1⟩ := visit_targets sel g cnt hcnt hone qn cfg R x s s1 c.sok hxa hv
+      have hmono1 : ∀ y l', r2lGet s.ms y = some l' → r2lGet s1.ms y = some l' := by
+        intro y l' hy
+        rcases hms1 with e | ⟨hnone, e, _⟩
+        · rw [e]; exact hy
+        · rw [e, r2lGet_cons]
+          have : x.id ≠ y := by
+            intro e2; rw [e2] at hnone; rw [hnone] at hy; cases hy
+          rw [if_neg this]; exact hy
+      simp only [List.map_cons, List.nodup_cons] at hnd
+      obtain ⟨a2, st2, c2, hmono2, hnd2, hin2⟩ := ih (fun y hy => hxs y (by simp [hy])) hnd.2 s1 c1 h
+      refine ⟨a1 ++ a2, st1.trans st2, c2, fun y l' hy => hmono2 y l' (hmono1 y l' hy), ?_, ?_⟩
+      · rw [targets_append sel qn a1 a2 _ _ st1.replay]
+        rcases ht1 with e | e
+        · rw [e]; simpa using hnd2
+        · rw [e]
+          simp only [List.singleton_append, List.nodup_cons]
+          refine ⟨?_, hnd2⟩
+          intro hm
+          obtain ⟨x', hx', hp'⟩ := hin2 l hm
+          have h1 : (l, x.id) ∈ s'.ms := r2lGet_mem s'.ms x.id l (hmono2 x.id l hl1)
+          have h2 : (l, x'.id) ∈ s'.ms := r2lGet_mem s'.ms x'.id l hp'
+          have := partner_unique s'.ms c2.mL l x.id x'.id h1 h2
+          exact hnd.1 (by rw [this]; exact List.mem_map.2 ⟨x', hx', rfl⟩)
+      · intro i hi
+        rw [targets_append sel qn a1 a2 _ _ st1.replay] at hi
+        rcases List.mem_append.1 hi with hi | hi
+        · rcases ht1 with e | e
+          · rw [e] at hi; cases hi
+          · rw [e] at hi
+            simp only [List.mem_cons, List.mem_nil_iff, or_false] at hi
+            subst hi
+            exact ⟨x, by simp, hmono2 x.id i hl1⟩
+        · obtain ⟨x', hx', hp'⟩ := hin2 i hi
+          exact ⟨x', by simp [hx'], hp'⟩
+
+theorem deleteAll_notargets (sel : Sel) (g : GoodSel sel) (qn : QName) (ign : List Str) (ls : List Nat)
+    (s s' : DState) (hs : SOK s) (h : deleteAll qn ls s = .ok s') :
+    ∃ acts, Steps qn ign s s' acts ∧ targets sel qn ⟨s.left, s.next⟩ acts = [] := by
+  obtain ⟨acts, st⟩ := deleteAll_steps qn ign ls s s' hs h
+  obtain ⟨ds, hds, hall⟩ := C17.deleteAll_out qn ls s s' h
+  refine ⟨acts, st, targets_none sel qn acts _ ?_⟩
+  have e : acts.reverse = ds := List.append_cancel_right (by rw [← st.out, hds])
+  intro a ha
+  have : a ∈ ds := by rw [← e]; simp [ha]
+  have hd := hall a this
+  cases a <;> simp [isDel] at hd
+  exact g.del _
+
+/-- **In the replay of a differ script the selected actions hit pairwise different nodes.** -/
+theorem scriptGen_once (sel : Sel) (g : GoodSel sel) (cnt : Action → Bool)
+    (hcnt : ∀ a, (sel a).isSome = cnt a)
+    (hone : ∀ (qn : QName) (cfg : Cfg) (R x : Tree) (s s' : DState), (keys x.payload.attrs).Nodup →
+      visit qn cfg R x s = .ok s' → s'.out.countP cnt ≤ s.out.countP cnt + 1)
+    (qn : QName) (cfg : Cfg) (L R : Tree) (M : List (Nat × Nat)) (fresh : Nat)
+    (script : List Action) (final : Tree) (hL : (ids L).Nodup) (hRn : (ids R).Nodup)
+    (hfL : ∀ i ∈ ids L, i < fresh) (hM : GoodMatching L R M)
+    (hA : ∀ x ∈ bfs R, (keys x.payload.attrs).Nodup)
+    (h : scriptGen qn cfg L R M fresh = .ok (script, final)) :
+    (targets sel qn ⟨L, fresh⟩ script).Nodup := by
+  unfold scriptGen at h
+  simp only [bind, Except.bind, pure, Except.pure] at h
+  split at h
+  · cases h
+  · next s1 hs1 =>
+    split at h
+    · cases h
+    · next s2 hs2 =>
+      simp only [Except.ok.injEq, Prod.mk.injEq] at h
+      obtain ⟨rfl, rfl⟩ := h
+      have c0 := C17.init_ci L R M fresh hL hfL hM
+      obtain ⟨a1, st1, c1, _, hnd1, _⟩ := visitAll_targets sel g cnt hcnt hone fresh qn cfg R hRn (bfs R)
+        (fun x hx => ⟨bfs_sub R hRn x hx, hA x hx⟩) (bfs_nodup R hRn) _ s1 c0 hs1
+      obtain ⟨a2, st2, ht2⟩ := deleteAll_notargets sel g qn cfg.ignored _ s1 s2 c1.sok hs2
+      have st := st1.trans st2
+      have hout : s2.out.reverse = a1 ++ a2 := by rw [st.out]; simp
+      rw [hout, targets_append sel qn a1 a2 _ _ st1.replay, ht2, List.append_nil]
+      exact hnd1
+
+theorem isSome_renSel (a : Action) : (renSel a).isSome = isRen a := by cases a <;> rfl
+theorem isSome_textSel (a : Action) : (textSel a).isSome = isTxt a := by cases a <;> rfl
+theorem isSome_tailSel (a : Action) : (tailSel a).isSome = isTail a := by cases a <;> rfl
+
+theorem one_ren (qn : QName) (cfg : Cfg) (R x : Tree) (s s' : DState) (hx : (keys x.payload.attrs).Nodup)
+    (h : visit qn cfg R x s = .ok s') : s'.out.countP isRen ≤ s.out.countP isRen + 1 :=
+  (visit_grows qn cfg R x s s' hx h).2.1
+
+theorem one_txt (qn : QName) (cfg : Cfg) (R x : Tree) (s s' : DState) (hx : (keys x.payload.attrs).Nodup)
+    (h : visit qn cfg R x s = .ok s') : s'.out.countP isTxt ≤ s.out.countP isTxt + 1 :=
+  (visit_grows qn cfg R x s s' hx h).2.2.1
+
+theorem one_tail (qn : QName) (cfg : Cfg) (R x : Tree) (s s' : DState) (hx : (keys x.payload.attrs).Nodup)
+    (h : visit qn cfg R x s = .ok s') : s'.out.countP isTail ≤ s.out.countP isTail + 1 :=
+  (visit_grows qn cfg R x s s' hx h).2.2.2
 
 end Once
 end XmlDiffModel
